@@ -24,6 +24,7 @@ def pTy : P Ty
   | "B" :: ts => some (.bool, ts)
   | "O" :: ts => some (.opaque, ts)
   | "U" :: ts => some (.unset, ts)
+  | "N" :: ts => some (.absent, ts)
   | t :: ts => if t.startsWith "E" then (t.drop 1).toString.toNat?.map fun n => (.enum n, ts) else none
   | [] => none
 
@@ -140,7 +141,7 @@ def pModule : P Module := fun ts => do
   pure (⟨exprs, params, locs, arrays, conds, passed, vals, attrs⟩, ts)
 
 def showTy : Ty → String
-  | .int => "I" | .bool => "B" | .enum n => s!"E{n}" | .opaque => "O" | .unset => "U"
+  | .int => "I" | .bool => "B" | .enum n => s!"E{n}" | .opaque => "O" | .unset => "U" | .absent => "N"
 
 def showCls : Cls → String
   | .mustInt i => s!"mustInt{i}" | .mustBool i => s!"mustBool{i}" | .mustField i => s!"mustField{i}"
@@ -156,6 +157,7 @@ def showCrash : Crash → String
   | .constRefOther => "constRefOther" | .arrayParamRef => "arrayParamRef"
   | .passedTypeName => "passedTypeName" | .attrConstBoolExpr => "attrConstBoolExpr"
   | .attrBackEnds => "attrBackEnds" | .attrSignedNotLiteral => "attrSignedNotLiteral"
+  | .cmpNone => "cmpNone" | .chNone => "chNone" | .compatNone => "compatNone"
 
 def showLoc (l : Loc) : String := toString l.id ++ (if l.syn then "s" else "")
 
